@@ -1073,6 +1073,7 @@ def main():
     like_map = {key_of(u): u for _, _, u in sp}
     like_keys = sorted(like_map)
     n_src_viol = 0
+    src_seen = collections.Counter()
     for rel in ((False, True) if chk.thorough else (False,)):
         rows = render4([(t, CTX) for _, t, _ in sp], release=rel)
         like_rows = dict(zip(like_keys, render4([(like_map[k], CTX) for k in like_keys], release=rel)))
@@ -1086,12 +1087,13 @@ def main():
             if any(o[0] == "skip" for o in row + ref):
                 hist["probe_source_syntax_error"] += 1
                 continue
-            if row != ref and n_src_viol < 8:
+            if row != ref and n_src_viol < 12 and src_seen[site.split(":")[1]] < 2:
                 row2, ref2 = render4([(t, CTX)], release=rel)[0], render4([(u, CTX)], release=rel)[0]
                 if row2 == ref2:
                     hist["unreproducible"] += 1
                     continue
                 n_src_viol += 1
+                src_seen[site.split(":")[1]] += 1
                 diff = [m for m, a, b in zip(MODES, row2, ref2) if a != b]
                 chk.violation("source of undefined %s at site %s does not behave like a missing variable under %s" % (site.split(":")[1], site.split(":")[2], ", ".join(diff)),
                               {"template": t, "like": u, "context": CTX, "profile": "release" if rel else "debug", "site": site,
